@@ -51,6 +51,9 @@ ILLFORMED = {
     "non_numeric_prefix_value": (["mega- = abc = M-"], None),
     "derived_dimension_with_unit": (["[s9] = [d0] * ua"], None),
     "system_replaces_non_root_unit": (["@system sq", "    v0:v0", "@end"], None),
+    "system_old_unit_not_in_new": (["@system sr", "    v0:ub", "@end"], None),
+    "system_with_undefined_unit": (["@system ss", "    nosuchunit", "@end"], None),
+    "system_new_unit_not_single_root": (["@system st", "    v1", "@end"], None),
     "undefined_reference": (["w9 = 2 * nosuchunit"], "w9"),
     "empty_modifier_value": (["w10 = 2 * ua; offset:"], "w10"),
     "empty_unit_value": (["w11 = "], "w11"),
@@ -971,7 +974,8 @@ class _Run:
         bad, touch = ILLFORMED[case["ill"]]
         base = ["kilo- = 1e3 = k-", "ua = [d0]", "ub = [d1]", "v0 = 2 * ua", "v1 = 3 * v0 / ub", "[s0] = [d0] / [d1]"]
         pos = {"end": len(base), "middle": 3, "start": 2}[case["position"]]
-        if case["ill"] in ("system_replaces_non_root_unit", "relation_with_unit_endpoint", "unused_context_parameter",
+        if case["ill"] in ("system_replaces_non_root_unit", "system_old_unit_not_in_new", "system_with_undefined_unit",
+                           "system_new_unit_not_single_root", "relation_with_unit_endpoint", "unused_context_parameter",
                            "derived_dimension_with_unit", "unknown_alias_target"):
             pos = len(base)
         lines = base[:pos] + bad + base[pos:]
@@ -1000,7 +1004,27 @@ class _Run:
                         u.load_definitions(main)
                     else:
                         u = pint.UnitRegistry(list(base), **kw)
-                        u.define("\n".join(bad))
+                        try:
+                            u.define("\n".join(bad))
+                        except Exception as e:
+                            # refused - then the registry that survives must not know a system or context of
+                            # that name (a rule-less system would silently answer in root units from now on)
+                            head = bad[0].split()
+                            if head[0] == "@system":
+                                try:
+                                    u.get_system(head[1], False)
+                                    return ["refused-but-registered", "system", head[1], sorted(dir(u.sys))]
+                                except ValueError:
+                                    pass
+                            if head[0].startswith("@context"):
+                                name = bad[0].split(")")[-1].split()[-1] if "(" in bad[0] else head[1]
+                                try:
+                                    u.enable_contexts(name)
+                                    u.disable_contexts()
+                                    return ["refused-but-registered", "context", name]
+                                except KeyError:
+                                    pass
+                            return "load:" + exc_name(e)
                 except RecursionError:
                     return "load:RecursionError"
                 except Exception as e:
